@@ -60,7 +60,8 @@ Record hub := mkHub {
 Inductive out :=
 | ONotice (client rq : nat)                (* a Processing message *)
 | OFinal (client rq : nat) (st : status)   (* finish_ok / finish_failure *)
-| OSend (w : nat) (r : rid).               (* WorkerSession::send *)
+| OSend (w : nat) (r : rid) (rq : nat)     (* WorkerSession::send, on behalf of client request rq *)
+| ODone (t : task) (timed_out : bool).     (* handle_finishing_task's log line: the task as it finished *)
 
 Inductive event :=
 | EClient (c : nat) (v : verb)
@@ -97,18 +98,18 @@ Definition bump_exp (n : nat) (tid : nat) (t : task) : task :=
   else t.
 
 (** [Server::scatter_on] *)
-Definition scatter_on (h : hub) (tid idx : nat) : hub * list out :=
+Definition scatter_on (h : hub) (rq tid idx : nat) : hub * list out :=
   let ws := targets h in
   let h1 := set_in_flight h (in_flight h ++ map (fun w => ((w, tid, idx), tid)) ws) in
   (set_tasks h1 (map (bump_exp (length ws) tid) (tasks h1)),
-   map (fun w => OSend w (w, tid, idx)) ws).
+   map (fun w => OSend w (w, tid, idx) rq) ws).
 
-Fixpoint scatter_many (h : hub) (tid : nat) (idxs : list nat) : hub * list out :=
+Fixpoint scatter_many (h : hub) (rq tid : nat) (idxs : list nat) : hub * list out :=
   match idxs with
   | [] => (h, [])
   | i :: rest =>
-    let '(h1, o1) := scatter_on h tid i in
-    let '(h2, o2) := scatter_many h1 tid rest in
+    let '(h1, o1) := scatter_on h rq tid i in
+    let '(h2, o2) := scatter_many h1 rq tid rest in
     (h2, o1 ++ o2)
   end.
 
@@ -125,19 +126,19 @@ Definition client_request (h : hub) (c : nat) (v : verb) : hub * list out :=
     | VUnserved => (h, if unserved_answered then [OFinal c rq SFailure] else [])
     | VWorker =>
       let '(h1, tid) := new_task h c KWorker tmo_worker in
-      let '(h2, o) := scatter_on h1 tid 0 in (h2, ONotice c rq :: o)
+      let '(h2, o) := scatter_on h1 rq tid 0 in (h2, ONotice c rq :: o)
     | VQuery =>
       let '(h1, tid) := new_task h c KQuery tmo_query in
-      let '(h2, o) := scatter_on h1 tid 0 in (h2, ONotice c rq :: o)
+      let '(h2, o) := scatter_on h1 rq tid 0 in (h2, ONotice c rq :: o)
     | VHardStop =>
       let '(h1, tid) := new_task h c (KStop true) tmo_hardstop in
-      let '(h2, o) := scatter_on h1 tid 0 in (h2, ONotice c rq :: o)
+      let '(h2, o) := scatter_on h1 rq tid 0 in (h2, ONotice c rq :: o)
     | VSoftStop =>
       let '(h1, tid) := new_task h c (KStop false) tmo_softstop in
-      let '(h2, o) := scatter_on h1 tid 0 in (h2, ONotice c rq :: o)
+      let '(h2, o) := scatter_on h1 rq tid 0 in (h2, ONotice c rq :: o)
     | VLoad n =>
       let '(h1, tid) := new_task h c KLoad tmo_load in
-      let '(h2, o) := scatter_many h1 tid (seq 1 n) in
+      let '(h2, o) := scatter_many h1 rq tid (seq 1 n) in
       (h2, ONotice c rq :: o ++ [ONotice c rq])
     end in
   (bump_rq h', o).
@@ -161,12 +162,9 @@ Definition apply_arm (a : arm) (t : task) : task :=
   | _ => t
   end.
 
-Definition is_stopped (h : hub) (w : nat) : bool :=
-  existsb (fun ws => Nat.eqb (fst ws) w && snd ws) (workers h).
-
-(** [CommandHub::handle_worker_response] (responses without event content) *)
+(** [CommandHub::handle_worker_response] (responses without event content).
+    The sender [w] plays no role: the hub routes by request id alone. *)
 Definition worker_response (h : hub) (w : nat) (r : option rid) (st : status) : hub * list out :=
-  if is_stopped h w then (h, []) else
   match r with
   | None => (h, [])
   | Some r =>
@@ -208,7 +206,7 @@ Definition finishes (h : hub) (t : task) : option bool :=
   else (if exp then Some flag_when_expired else if fin then Some flag_when_finished else None).
 
 Definition finish_outs (t : task) (raw : bool) : list out :=
-  map (OFinal (t_client t) (t_rq t)) (verdict (t_kind t) (t_err t) (on_finish_flag raw)).
+  map (OFinal (t_client t) (t_rq t)) (verdict (t_kind t) (t_err t) (on_finish_flag raw)) ++ [ODone t raw].
 
 Definition is_stop (k : kind) : bool := match k with KStop _ => true | _ => false end.
 
@@ -239,7 +237,7 @@ Definition apply_event (h : hub) (e : event) : hub * list out :=
   end.
 
 Definition out_client (o : out) : option nat :=
-  match o with ONotice c _ => Some c | OFinal c _ _ => Some c | OSend _ _ => None end.
+  match o with ONotice c _ => Some c | OFinal c _ _ => Some c | OSend _ _ _ => None | ODone _ _ => None end.
 
 (** a message for a client whose session is gone is dropped
     ([self.clients.get_mut(&token)] is [None]) *)
